@@ -453,6 +453,20 @@ theorem same_cycles (hA : Accepted D S) (hC : Cycle D v S run) {L : List Nat} (h
     {a b : Nat} (hS : ShapeC13 D a b L) : run a = true ↔ run b = true :=
   ⟨simul_runs_of hA hC hl hS.aLt hS.fwd, simul_runs_of hA hC hl hS.bLt hS.bwd⟩
 
+/-- **C13, sentence 1, nested form**: a transaction `b` nested in body `a` and declared simultaneous with it (what
+`condition()` builds for one branch; the merged call of `b` may be enabled by `a.run`, manager.py:454-455) runs in
+exactly the cycles in which `a` runs -/
+theorem same_cycles_nested (hA : Accepted D S) (hC : Cycle D v S run) {L : List Nat} {Dr : List (Nat × List Nat)}
+    {a b : Nat} {hd pr : Bool} (hS : ShapeC12 D ⟨a, [b], hd, pr⟩ L Dr) (hl : LinkEn D v run L) (hd' : DerEn v run Dr) :
+    run a = true ↔ run b = true := by
+  constructor
+  · intro hr
+    obtain ⟨x, hx, hrx⟩ := parent_needs_branch hA hC hS hl hd' hr
+    simp only [List.mem_singleton] at hx
+    subst hx; exact hrx
+  · intro hr
+    exact (branch_needs hA hC hS hl hd' (b := b) (by simp) hr).1
+
 /-- connectors.py:268-283: `Connect.read` returns `read_value`, which the body of `write` assigns from
 its argument (in `av_comb`, i.e. unconditionally): the value of `write.data_in` -/
 def connectReadOut (D : Design) (v : Val) (run : Nat → Bool) (write : Nat) : Nat :=
